@@ -33,7 +33,7 @@ var hxSetterNames = []string{"Subject", "SetGenHeader", "FromFormat", "AddToForm
 
 // hxBuildC02 builds a message in which setter `which` receives value v.
 // It returns nil if the setter rejected the value with an error.
-func hxBuildC02(which int, v string, menc Encoding, multipart bool) *Msg {
+func hxBuildC02(which int, v string, menc Encoding, multipart bool, noBody bool) *Msg {
 	m := NewMsg(WithEncoding(menc))
 	m.SetDateWithValue(hxFixedTime)
 	if which != hxSetMessageID {
@@ -73,7 +73,9 @@ func hxBuildC02(which int, v string, menc Encoding, multipart bool) *Msg {
 	if which == hxSetPartDescOpt {
 		popts = append(popts, WithPartContentDescription(v))
 	}
-	m.SetBodyString(TypeTextPlain, "body text\r\n", popts...)
+	if !noBody {
+		m.SetBodyString(TypeTextPlain, "body text\r\n", popts...)
+	}
 	if which == hxSetPartDescSetter {
 		m.GetParts()[0].SetDescription(v)
 	}
@@ -157,14 +159,20 @@ func HarnessC02Inject() {
 	}
 	menc := hxEnc(svPick("menc", svParam("mencs", 2))) // QP -> Q header encoder, base64 -> B header encoder
 	multipart := svPick("multipart", svParam("mps", 2)) == 1
+	// file-related setters are also exercised on a message that consists of the
+	// file alone (its MIME headers are then part of the top-level header block)
+	noBody := false
+	if which == hxSetAttachName || which == hxSetWithFileName || which == hxSetFileDesc || which == hxSetFileContentID {
+		noBody = svPick("file-only", 2) == 1
+	}
 	val := svBytes("v", n)
 	v := string(val)
-	base := hxBuildC02(which, "benign", menc, multipart)
+	base := hxBuildC02(which, "benign", menc, multipart && !noBody, noBody)
 	if base == nil {
 		svAssert(false, "setup-baseline")
 		return
 	}
-	m := hxBuildC02(which, v, menc, multipart)
+	m := hxBuildC02(which, v, menc, multipart && !noBody, noBody)
 	if m == nil {
 		svReach("setter-rejected")
 		return
